@@ -146,9 +146,11 @@ func (b *Broker) response(ctx context.Context, id string) {
 	if responder, ok := b.responders.Pop(id); ok {
 		responder := responder.(chan map[string][]Message)
 		if !b.send(ctx, id, responder) {
-			if !b.responders.SetIfAbsent(id, responder) {
-				responder <- nil
-			}
+			// nothing to deliver after all. Whoever takes a responder out of the map always
+			// answers it (a poll that has timed out meanwhile relies on that): let the client
+			// poll again.
+			responder <- map[string][]Message{}
+			go b.doHeartBeat(ctx, id)
 		}
 	}
 }
@@ -194,8 +196,16 @@ func (b *Broker) message(ctx context.Context) map[string][]Message {
 			defer cancel()
 			select {
 			case <-ctx.Done():
-				go b.doHeartBeat(context.Background(), id)
-				return map[string][]Message{}
+				// withdraw the responder, so that a later publish stays in the cache for the
+				// next poll instead of being answered into a channel nobody reads
+				if b.responders.RemoveCb(id, func(_ string, v interface{}, exists bool) bool {
+					return exists && v == interface{}(responder)
+				}) {
+					go b.doHeartBeat(context.Background(), id)
+					return map[string][]Message{}
+				}
+				// a publisher (or a newer poll) has already taken the responder and answers it
+				return <-responder
 			case result := <-responder:
 				return result
 			}
